@@ -65,3 +65,23 @@ func (sc *SchedulerCache) VerifProcessBindFlow() int {
 	}
 	return n
 }
+
+// VerifProcessBindFlowBatch takes ALL bind contexts AddBindTask queued on
+// BindFlowChannel as ONE batch - what processBindTask collects when
+// BATCH_BIND_NUM is greater than one - and runs, inline, what BindTask runs
+// in a goroutine for the batch: the registered pre-binders for every context,
+// then Bind for the contexts that passed them. It returns the batch size.
+func (sc *SchedulerCache) VerifProcessBindFlowBatch() int {
+	batch := []*BindContext{}
+	for len(sc.BindFlowChannel) > 0 {
+		batch = append(batch, <-sc.BindFlowChannel)
+	}
+	if len(batch) == 0 {
+		return 0
+	}
+	ctx := context.Background()
+	preBinders := sc.binderRegistry.getRegisteredPreBinders()
+	successful := sc.executePreBinds(ctx, batch, preBinders)
+	sc.Bind(ctx, successful, preBinders)
+	return len(batch)
+}
